@@ -117,13 +117,21 @@ def do_access(ds, n, acc):
         return list(zip(range(i, n), ds[i:]))
     if kind == 'copy':
         return [(i, ds.copy()[i])]
+    if kind == 'iter_k':
+        # partial iteration: the consumer breaks after i examples
+        out = []
+        it = iter(ds)
+        for j in range(min(i, n)):
+            out.append((j, next(it)))
+        it.close()
+        return out
     raise ValueError(kind)
 
 
 def gen_access(rng, n, kind):
-    k = rng.choice(['index', 'index', 'neg', 'iter', 'slice', 'copy'] +
+    k = rng.choice(['index', 'index', 'neg', 'iter', 'slice', 'copy', 'iter_k'] +
                    (['key'] if kind == 'dict' else []))
-    return [k, rng.randrange(n)]
+    return [k, rng.randrange(n + 1) if k == 'iter_k' else rng.randrange(n)]
 
 
 # ------------------------------------------------------------ child writer
@@ -159,6 +167,19 @@ def run_child(cache_dir, n, kind, accesses, kill_at):
             sys.settrace(tracer)
             ds = ldc.DiskCacheDataset(up, cache_dir, reuse=True, clear=False)
             for j, acc in enumerate(accesses):
+                if acc[0] in ('iter', 'slice', 'iter_k'):
+                    # the writer consumes an iteration example by example: every
+                    # example it has received is acknowledged (it was stored
+                    # before it was handed out)
+                    if acc[0] == 'iter':
+                        stream = enumerate(ds)
+                    elif acc[0] == 'slice':
+                        stream = zip(range(acc[1], n), ds[acc[1]:])
+                    else:
+                        stream = zip(range(min(acc[1], n)), ds)
+                    for i, _v in stream:
+                        os.write(w, ('ack %d %s %d\n' % (j, json.dumps([i]), steps[0])).encode())
+                    continue
                 got = do_access(ds, n, acc)
                 idx = [i for i, _ in got]
                 os.write(w, ('ack %d %s %d\n' % (j, json.dumps(idx), steps[0])).encode())
@@ -213,8 +234,10 @@ def gen(rng, tier, index):
     finally:
         shutil.rmtree(tmp, ignore_errors=True)
     total = dry['total'] or 1
-    kills = sorted({s + 1 for s in dry['steps']} | {s for s in dry['steps']} |
-                   {rng.randrange(1, total + 1) for _ in range(6)})
+    after_ack = sorted({s + 1 for s in dry['steps']} | {s for s in dry['steps']})
+    if len(after_ack) > 14:
+        after_ack = sorted(rng.sample(after_ack, 14))
+    kills = sorted(set(after_ack) | {rng.randrange(1, total + 1) for _ in range(6)})
     for k in kills:
         cases.append({'mode': 'crash', 'n': n, 'kind': kind, 'pre': pre,
                       'accesses': accesses, 'kill': k,
@@ -384,8 +407,7 @@ def run_crash(case):
             acked.update(idx)
         for i in acked:
             m.persisted[i] = value_of(i)
-        nxt = case['accesses'][len(rep['acks'])] if len(rep['acks']) < len(case['accesses']) else None
-        inflight = set(range(n)) - set(m.persisted) if (killed and nxt is not None) else set()
+        inflight = set(range(n)) - set(m.persisted) if killed else set()
         if inflight:
             m.probes['inflight_index_after_kill'] = 1
         # reopen (or keep using the parent's handle) and read everything
